@@ -200,6 +200,15 @@ func init() {
 			case c.Idx < gb:
 				// generated types and values, hostile value features included
 				rv := c.RNG(0)
+				if c.Idx%64 == 13 {
+					// maps of every key kind the encoder has a routine for, all entry points
+					for si, x := range c01KeyKindMaps() {
+						if c.Cur(6000+si, fmt.Sprintf("shapes=core\nmaps of every key kind: %T", x)) {
+							ref, _ := stdjson.Marshal(x)
+							c03Check(c, 6000+si, x, reflect.TypeOf(x), "", isASCII(ref) && ref != nil, "", entries)
+						}
+					}
+				}
 				if c.Idx%8 == 5 {
 					// one member kind in every member position (gen.PositionTypes), all entry points
 					kind := gen.PositionKinds[(c.Idx/8)%len(gen.PositionKinds)]
